@@ -275,6 +275,14 @@ Theorem C10_rotate_children_translated :
          (map (fun c => rotate_t c r a st (Some (f (list V) (PathModel.pos o) pp))) ch).
 Proof. exact rotate_children_translated. Qed.
 
+(* no stored position array is updated in place (fix 57d6fdd: Collection.move(child.position, ...)) *)
+Theorem C10_path_copy_translated :
+  get "path_padding" "assign" "ppath" 0 flow =
+    PCall (PAttr (PAttr (PName "target_object") "_position") "copy") [] [] /\
+  get "path_padding" "assign" "opath" 0 flow =
+    PCall (PAttr (PAttr (PName "target_object") "_orientation") "as_quat") [] [].
+Proof. exact path_copy_translated. Qed.
+
 Theorem C10_children_first_translated :
   (exists i j, index_of "_rotate" "for" (fun _ => true) 0 flow = Some i /\
                index_of "_rotate" "expr" (is_call_of (PName "apply_rotation")) 0 flow = Some j /\ (i < j)%nat) /\
@@ -330,6 +338,7 @@ Print Assumptions C10_flow_translated.
 Print Assumptions C10_move_children_translated.
 Print Assumptions C10_rotate_children_translated.
 Print Assumptions C10_children_first_translated.
+Print Assumptions C10_path_copy_translated.
 Print Assumptions C10_parent_anchor_model.
 Print Assumptions C10_position_setter_translated.
 Print Assumptions C10_orientation_setter_translated.
